@@ -534,9 +534,16 @@ func (simpleEngine) Exec(spec *Spec) *Result {
 			if !okI || inv >= ev {
 				continue
 			}
-			if r.in.K == "read" || r.in.K == "getattr" || r.in.K == "misc" {
-				continue // observers constrain the crash-free history only
+			if r.in.K == "misc" {
+				continue
 			}
+			if (r.in.K == "read" || r.in.K == "getattr") && !(okR && ret < ev) {
+				continue // an observer that had not returned tells nothing
+			}
+			// Acknowledged READ and GETATTR replies are part of the crash history: the
+			// specification has no volatile state, so what a client was shown must still
+			// be there after the crash (the server holds the file's lock until its
+			// transaction is on disk, so an observer never sees an unflushed write).
 			if okR && ret < ev {
 				h = append(h, porcupine.Operation{ClientId: r.client, Input: r.in, Output: r.out, Call: r.call, Return: r.ret})
 			} else {
